@@ -1,6 +1,6 @@
 (* EvalCorr.v — correspondence of the engine core: optimiser, compiler back end, Eval, TryEval.
    One case = what the harness observed from the Go implementation on one (config, tree, binding). *)
-Require Import Base Opcode Tables Ops Tree Opt Flat Run TestEnv.
+Require Import Base Opcode Tables Ops Tree Opt Flat FlatE Run TestEnv.
 Open Scope Z_scope.
 Open Scope list_scope.
 
@@ -57,6 +57,9 @@ Definition chk_eval (c : ecase) : list N :=
      if negb (N.eqb (ec_cerr c) 0) then [2%N] else
      (* 3: layout fidelity *)
      (match ec_prog c with Some Pg => if prog_eqb Pm Pg then [] else [3%N] | None => [] end) ++
+     (* 10: the structural event-mode compiler (the one the C12 theorem is about) against the transliterated
+            calAndSetEventNode pass *)
+     (if ev then (if prog_eqb (compileE tt) Pm then [] else [10%N]) else []) ++
      (* 8: static validation of Go's program *)
      (match ec_prog c with Some Pg => if stack_ok Pg then [] else [8%N] | None => [] end) ++
      (* 4: the Eval loop model on Go's own program *)
